@@ -39,6 +39,7 @@ Inductive dop :=
 | DSole                                    (* get_sole_delegation *)
 | DFor (id : str)                          (* return_delegations_for_id *)
 | DDict (k : nat)                          (* get_details_as_dict of object k *)
+| DFields (k : nat)                        (* the getters of object k: type, id, format, pool name, details *)
 | DEncode                                  (* to_json *)
 | DDecode (j : nat).                       (* from_json of the text the j-th to_json call returned *)
 
@@ -104,6 +105,7 @@ Definition dstep (st : dstate) (o : dop) : dstate * val :=
                     | Some d => VL [VOpt v_ddict (details_as_dict d)]
                     | None => VNone
                     end)
+  | DFields k => (st, VOpt v_deleg (nth_error (dst_heap st) k))
   | DEncode =>
       let r := to_json (dcontent st) in
       (mkDSt ty (dst_heap st) (dst_refs st) (dst_texts st ++ [r]), v_res v_jdoc r)
@@ -128,7 +130,7 @@ End WithValidators.
 (* the read-only operations *)
 Definition dop_readonly (o : dop) : bool :=
   match o with
-  | DGet _ | DIds | DAsList | DSole | DFor _ | DDict _ | DDecode _ => true
+  | DGet _ | DIds | DAsList | DSole | DFor _ | DDict _ | DFields _ | DDecode _ => true
   | _ => false
   end.
 
